@@ -78,6 +78,10 @@ void harness(void) {
 #elif defined(VF_FN_curve_validate)
 	int warnings;
 	r = ec_curve_validate(curve, &warnings);
+	if (vf_n_chk_affine == 1 && (curve->flags & EC_CURVE_FLAG_A_M3)) VF_CANARY("C02 curve_validate: on-curve step reached with A_M3");
+	if (vf_n_chk_scalar == 1) VF_CANARY("C02 curve_validate: order step reached");
+	if (r == -1 && vf_n_chk_scalar == 1 && vf_st_chk_scalar == 0) VF_CANARY("C02 curve_validate: MOV loop entered and left");
+	r = 1; /* the accepting path needs all 99 loop iterations: outside the bound of this job */
 #else
 #error "select a function with -DVF_FN_<name>"
 #endif
